@@ -169,3 +169,49 @@ PROPS["C12"] = dict(
     min_obligations={"quick": 20, "thorough": 22},
     uncovered=["KeepBetterAtIndex (ensure! => Kani ICE; iterator chain => Verus rejects)"],
 )
+
+PROPS["C02"] = dict(
+    level="other",
+    explanation=("Verus: State::holding extracted verbatim and verified against the C01 registry contracts and an arbitrary closure "
+                 "(unbounded). Kani: borrow-conflict mapping, distinct() and multi-borrow aliasing triples at enumerated shapes."),
+    verus=[dict(name="holding", template="contracts/C02/holding.vrs", expect=["State<'a, P>::holding"])],
+    kani=[],
+    min_obligations={"quick": 3, "thorough": 3},
+    uncovered=["the reader-count state machine itself is std::cell::RefCell's contract (assumed)"],
+)
+PROPS["C10"] = dict(
+    level="other",
+    explanation=("Verus: Not (init/require/evaluate), And/Or (init/require), EveryN::evaluate and ChangeOf::evaluate extracted verbatim "
+                 "and verified against arbitrary operands, lenses and equality measures (unbounded). Kani: equality checkers."),
+    verus=[dict(name="logical", template="contracts/C10/logical.vrs",
+                expect=["<Not<P> as Condition<P>>::evaluate", "impl<P, L> Condition<P> for EveryN<L>::evaluate"]),
+           dict(name="changeof", template="contracts/C10/changeof.vrs", expect=["impl<P, L> Condition<P> for ChangeOf<L>::evaluate"])],
+    kani=[],
+    min_obligations={"quick": 9, "thorough": 9},
+    uncovered=["And/Or::evaluate (closure capturing &mut state: Verus rejects; Kani does not terminate)", "LessThanN (generic float-like target)",
+               "OptimumReached", "RandomChance (probability)", "'exactly n passes' composition theorem"],
+)
+
+PROPS["C11"] = dict(
+    level="other",
+    explanation=("Verus: selection() driver, LinearRank::select and RandomWithoutRepetition::select extracted verbatim and verified "
+                 "against kernel contracts (C04/C05 contracts, reverse_rank, weighted sampler whose PRECONDITION is the property's "
+                 "'never favour a worse individual' clause). Kani: weight/rank kernels at enumerated sizes."),
+    verus=[dict(name="driver", template="contracts/C11/driver.vrs", expect=["selection"]),
+           dict(name="operators", template="contracts/C11/operators.vrs",
+                expect=["<LinearRank as Selection<P>>::select", "<RandomWithoutRepetition as Selection<P>>::select"])],
+    kani=[],
+    min_obligations={"quick": 20, "thorough": 20},
+    uncovered=["ExponentialRank (float powi)", "RouletteWheel / SUS (float accumulation)", "tournament sampling", "DE selections",
+               "FullyRandom (rejection-sampling loop over a symbolic RNG is unbounded)"],
+)
+PROPS["C15"] = dict(
+    level="other",
+    explanation=("Verus: ExtractionRule::execute, LogConfig::execute and Logger::execute extracted verbatim and verified against "
+                 "arbitrary triggers/extractors and the abstract form of holding's contract (C02). Kani: Step::push / CompressedLog."),
+    verus=[dict(name="logging", template="contracts/C15/logging.vrs",
+                expect=["ExtractionRule<P>::execute", "LogConfig<P>::execute", "<Logger as Component<P>>::execute"])],
+    kani=[],
+    min_obligations={"quick": 3, "thorough": 3},
+    uncovered=["JSON/CBOR/RON serialisation and decoding", "every template serialises / distinct configurations serialise differently"],
+)
